@@ -374,18 +374,26 @@ def grouper(rep, prog, f, keytext):
     from sa.loader import FunctionInfo
     where = f.where
     call = None
-    m = re.match(r'^(\w+)\(\)$', keytext or '')
+    m = re.match(r'^(?:\w+\.)*(\w+)\(\)$', keytext or '')
     mf = re.match(r'^<fn .*\.(\w+)>$', keytext or '')
     if m is not None:
-        # an instance of a local class: the key function is its __call__ (state lives on the instance)
-        for n in ast.walk(f.node):
-            if isinstance(n, ast.ClassDef) and n.name == m.group(1):
-                call = next((x for x in n.body if isinstance(x, ast.FunctionDef) and x.name == '__call__'), None)
+        # an instance of a class: the key function is its __call__ (state lives on the instance).  The class is found by the
+        # value that reaches groupby - local to parse, nested in the owning class (self.K() / cls.K() / PGPKey.K()) or module level
+        cands = [n for n in ast.walk(f.node) if isinstance(n, ast.ClassDef) and n.name == m.group(1)]
+        if not cands and f.cls is not None:
+            for c in f.cls.mro():
+                cands += [n for n in c.node.body if isinstance(n, ast.ClassDef) and n.name == m.group(1)]
+        if not cands:
+            r = prog.lookup(f.module, m.group(1))
+            if hasattr(r, 'mro') and hasattr(r, 'node'):
+                cands = [r.node]
+        if len(cands) == 1:
+            call = next((x for x in cands[0].body if isinstance(x, ast.FunctionDef) and x.name == '__call__'), None)
     elif mf is not None:
         # a local function: state lives in a variable of the enclosing scope
         call = next((n for n in ast.walk(f.node) if isinstance(n, ast.FunctionDef) and n.name == mf.group(1) and n is not f.node), None)
     if call is None:
-        raise AnalysisError('PGPKey.parse: grouping key %s is neither an instance of a local class with __call__ nor a local function' % keytext)
+        raise AnalysisError('PGPKey.parse: grouping key %s is neither an instance of a class with __call__ nor a local function' % keytext)
     fi = FunctionInfo(call, f.module, None, outer=f)
     if len(fi.params) != (2 if m is not None else 1):
         raise AnalysisError('PGPKey.parse: grouping key function takes %s' % fi.params)
